@@ -70,9 +70,17 @@ def fn_bodies(src):
     for m in re.finditer(r"\bimpl\b([^{;]*)\{", src):
         header = " ".join(m.group(1).split())
         body = block_at(src, m.end() - 1)
-        for f in re.finditer(r"\bfn\s+(\w+)\s*(<[^>]*>)?\s*\(", body):
-            k = body.find("{", f.end())
-            semi = body.find(";", f.end())
+        for f in re.finditer(r"\bfn\s+(\w+)", body):
+            # skip generics (may nest), then the parameter list, up to the body brace
+            j, depth = f.end(), 0
+            while j < len(body) and not (body[j] == "(" and depth == 0):
+                if body[j] == "<":
+                    depth += 1
+                elif body[j] == ">" and body[j - 1] != "-":
+                    depth -= 1
+                j += 1
+            k = body.find("{", j)
+            semi = body.find(";", j)
             if k < 0 or (0 <= semi < k):
                 continue
             res.append((header, f.group(1), block_at(body, k)))
@@ -164,6 +172,59 @@ def gen_hdlc():
              f"def crcXorOut : Nat := {xorout}", "",
              "end RR.Gen", ""]
     return "Hdlc.lean", "\n".join(lines)
+
+
+def open_flags(expr):
+    """Flags of one `match mode` arm: an OpenOptions chain or File::create."""
+    f = {"read": False, "write": False, "append": False, "create": False, "createNew": False, "truncate": False}
+    if re.search(r"File\s*::\s*create\s*\(", expr):
+        f.update(write=True, create=True, truncate=True)
+        return f
+    if not re.search(r"\.open\s*\(", expr):
+        raise SystemExit("extract: cannot read open flags from: " + expr[:80])
+    for name, key in [("read", "read"), ("write", "write"), ("append", "append"), ("create", "create"),
+                      ("create_new", "createNew"), ("truncate", "truncate")]:
+        m = re.search(r"\.%s\s*\(\s*(true|false)\s*\)" % name, expr)
+        if m:
+            f[key] = m.group(1) == "true"
+    return f
+
+
+def order_in(body, pats):
+    """Names of the patterns in the order of their first textual occurrence in body."""
+    found = []
+    for name, pat in pats:
+        m = re.search(pat, body)
+        if m:
+            found.append((m.start(), name))
+    return [n for _, n in sorted(found)]
+
+
+def gen_filesink():
+    src = strip_rust(open(os.path.join(REPO, "src", "file_sink.rs")).read())
+    bodies = fn_bodies(src)
+    out = ["import RR.Model.FileSink", "",
+           "/-! GENERATED by tools/extract.py from /repo/src/file_sink.rs on every run: the open flags of every mode of",
+           "both sinks, and the order of write / flush / consume inside each work(). Do not edit. -/",
+           "namespace RR.Gen", "open RR.FileSink", ""]
+    for sink, impl_pat, lname in [("FileSink", r"^<T: Copy> FileSink<T>$", "fileSink"),
+                                  ("NoCopyFileSink", r"^<T> NoCopyFileSink<T>$", "ncFileSink")]:
+        new = find_fn(bodies, impl_pat, "new")
+        for mode in ["Create", "Overwrite", "Append"]:
+            m = re.search(r"Mode\s*::\s*%s\s*=>(.*?)(?=Mode\s*::|\}\s*\)\s*;)" % mode, new, flags=re.S)
+            if not m:
+                raise SystemExit(f"extract: arm Mode::{mode} not found in {sink}::new")
+            f = open_flags(m.group(1))
+            out.append("def %s%s : OpenFlags := { read := %s, write := %s, append := %s, create := %s, createNew := %s, truncate := %s }"
+                       % (lname, mode, *[str(f[k]).lower() for k in ["read", "write", "append", "create", "createNew", "truncate"]]))
+    work = find_fn(bodies, r"Block for FileSink<T>", "work")
+    order = order_in(work, [("write", r"\.write_all\s*\("), ("flush", r"\.flush\s*\("), ("consume", r"\.consume\s*\(")])
+    out.append("def fileSinkWork : List Ev := [%s]" % ", ".join("." + x for x in order))
+    work = find_fn(bodies, r"Block for NoCopyFileSink<T>", "work")
+    order = order_in(work, [("consume", r"\.pop\s*\("), ("write", r"\.write_all\s*\("), ("flush", r"\.flush\s*\(")])
+    out.append("def ncFileSinkWork : List Ev := [%s]" % ", ".join("." + x for x in order))
+    out += ["", "end RR.Gen", ""]
+    return "FileSink.lean", "\n".join(out)
 
 
 def find_fn_free(src, name):
